@@ -85,13 +85,16 @@ cJsonOne == {MkJson(<<O(c, lo)>>, <<g1, g2>>) : c \in Contents(2), lo \in BOOLEA
 \* two objects: contents of <= 1 token each; the interesting ones end in an escaped backslash or hold braces
 cJsonTwo == {MkJson(<<O(c1, FALSE), O(c2, FALSE)>>, <<<<>>, g, <<>>>>) : c1 \in Contents(1) \cup {<<"a", "eb">>, <<"eb", "eq">>, <<"rb", "eb">>}, c2 \in {<<>>, <<"lb">>, <<"eb">>}, g \in JGaps}
              \cup {MkJson(<<ON(c1), O(c2, TRUE)>>, <<<<"\n">>, <<>>, <<"\n">>>>) : c1 \in {<<"eb">>, <<"rb">>, <<"eq", "rb">>}, c2 \in {<<"a">>, <<"eb">>}}
+\* three-token contents, tight form, no gaps: e.g. an escaped backslash, an escaped quote, then a brace
+cJsonThree == {MkJson(<<O(c, FALSE)>>, <<<<>>, <<>>>>) : c \in [1..3 -> Toks]}
 cJsonQuick == {p \in cJsonOne : p.total <= 13} \cup {p \in cJsonTwo : p.total <= 22 /\ p.id.gl[2] = 0}
+              \cup {p \in cJsonThree : \E i \in 1..(p.total - 1) : p.chars[i] = "\\" /\ p.chars[i+1] = "\\"}
 cJsonHandler == {p \in cJsonTwo : p.total <= 20 /\ p.id.gl[2] = 1}
 JsonCuts(objs, gaps) == {MkJsonCut(objs, gaps, c) : c \in 1..(Len(gaps[1]) + Len(objs[1].chars) + Len(gaps[2]) + Len(objs[2].chars) + Len(gaps[3]))}
 cJsonCut == JsonCuts(<<O(<<"a">>, FALSE), O(<<"eb">>, FALSE)>>, <<<<>>, <<"\n">>, <<>>>>)
             \cup JsonCuts(<<O(<<"rb">>, TRUE), ON(<<"eq">>)>>, <<<<"\n">>, <<>>, <<"\n">>>>)
 cFileProfiles == cXmlCutThorough \cup cJsonCut \cup cXmlThorough \cup {p \in cJsonTwo : p.total <= 22}
-cJsonThorough == cJsonOne \cup cJsonTwo
+cJsonThorough == cJsonOne \cup cJsonTwo \cup cJsonThree
 
 \* the profiles alone (files: the schedule is the operating system's)
 ProfSpec == Init /\ [][UNCHANGED vars]_vars
